@@ -123,6 +123,34 @@ func (x *Exec) script(o *Obl, inputs []ModelVar, skipReveal bool) string {
 		fmt.Fprintf(&b, "(declare-const %s %s)\n", sk.name, sk.sort)
 	}
 	for _, a := range o.Axioms {
+		if strings.HasPrefix(a.S, "(forall ((|cd?a| ") {
+			// finite-set axioms (zz_card.go): only where a length of that key sort occurs, and never
+			// in a cover query (they can only remove models; a cover must stay decidable)
+			if o.ExpectSat {
+				continue
+			}
+			i := strings.Index(a.S, "(|card:")
+			if i < 0 {
+				continue
+			}
+			j := strings.Index(a.S[i+2:], "|")
+			if j < 0 {
+				continue
+			}
+			fname := a.S[i+1 : i+2+j+1] // the quoted symbol |card:(...)|
+			occurs := strings.Contains(o.Goal.S, fname)
+			for k, p := range o.PC {
+				if occurs {
+					break
+				}
+				if keep[k] && strings.Contains(p.S, fname) {
+					occurs = true
+				}
+			}
+			if !occurs {
+				continue
+			}
+		}
 		fmt.Fprintf(&b, "(assert %s)\n", a.S)
 	}
 	emitted := map[string]bool{}
@@ -182,6 +210,9 @@ func (x *Exec) finalize(obls []*Obl) {
 		decls = x.D.Text()
 		ax = append(ax, &Term{S: "(forall ((|ax?s| GoStr)) (! (= (str_of_seq (seq_of_str |ax?s|)) |ax?s|) :pattern ((seq_of_str |ax?s|))))", Sort: SBool})
 	}
+	// finite-set facts about map lengths (card of a key set), as axioms over the set so that they also
+	// apply to lengths that appear when a quantified fact is instantiated (zz_card.go)
+	ax = append(ax, x.cardAxioms()...)
 	for _, o := range obls {
 		o.Decls = decls
 		o.D = x.D
